@@ -28,6 +28,7 @@ public:
     int try_lock_wait(uint64_t& offset, uint64_t& length)
     {
         range_t r(offset, length);
+        if (r.empty()) return 0;    // covers no byte: nothing to lock, never stored
         SCOPED_LOCK(m_lock);
         auto it = m_index.lower_bound(r);
         if (it != m_index.end() && it->offset < r.end()) {
@@ -44,6 +45,7 @@ public:
     void unlock(uint64_t offset, uint64_t length)
     {
         range_t r(offset, length);
+        if (r.empty()) return;
         SCOPED_LOCK(m_lock);
         auto it = m_index.lower_bound(r);
         while (it != m_index.end() && it->offset < r.end())
@@ -62,6 +64,12 @@ public:
     {
         range_t r(offset, length);
         SCOPED_LOCK(m_lock);
+        static_assert(sizeof(iterator) == sizeof(LockHandle*), "...");
+        if (r.empty()) {
+            // covers no byte: granted without being stored; the handle is end()
+            auto it = m_index.end();
+            return __reinterpret_cast<LockHandle*>(it);
+        }
         auto it = m_index.lower_bound(r);
         if (it != m_index.end() && it->offset < r.end()) {
             it->cond.wait(m_lock);
@@ -69,7 +77,6 @@ public:
         } else {
             it = m_index.emplace_hint(it, r);
             assert(it != m_index.end());
-            static_assert(sizeof(it) == sizeof(LockHandle*), "...");
             return __reinterpret_cast<LockHandle*>(it);
         }
     }
@@ -89,6 +96,8 @@ public:
         range_t r1(offset, length);
         SCOPED_LOCK(m_lock);
         auto it = __reinterpret_cast<iterator>(h);
+        if (it == m_index.end() || r1.empty())
+            return -1;  // ranges that cover no byte are never stored
         auto r0 = (range_t*) &*it;
         if ((r1.offset < r0->offset && r1.offset < prev_end(it)) ||
             (r1.end()  > it->end()  && r1.end()  > next_offset(it)))
@@ -102,7 +111,8 @@ public:
     {
         SCOPED_LOCK(m_lock);
         auto it = __reinterpret_cast<iterator>(h);
-        m_index.erase(it);
+        if (it != m_index.end())
+            m_index.erase(it);
     }
 
 protected:
@@ -121,6 +131,12 @@ protected:
         {
             return photon::sat_add(offset, length);
         }
+        bool empty() const
+        {
+            return end() == offset;     // length 0, or offset at the top of the 64-bit space
+        }
+        // a strict weak order only among ranges that cover at least one byte:
+        // never store an empty() range
         bool operator < (const range_t& rhs) const
         {
             return end() <= rhs.offset; // because end() is not inclusive
